@@ -270,6 +270,10 @@ impl<T: Qcow2IoOps> Qcow2Dev<T> {
                     // loaded, otherwise every later lookup of this key skips
                     // the load and fails for good
                     slice.set_offset(None);
+                    // and it must not be committed into the cache by the next
+                    // commit_wmap() as if it had been loaded
+                    drop(slice);
+                    cache.remove_from_wmap(&key);
                     return Err(err);
                 }
                 log::trace!("add_cache_slice: load from disk");
